@@ -110,6 +110,19 @@ var quickPairKinds = []string{"undefined", "null", "1", "2^32", "str-abc", "obje
 // NamedKey is a named string type used as the key type of a bridged map.
 type NamedKey string
 
+// EmbedInner / EmbedOuter: a struct that embeds a pointer which is nil.
+type EmbedInner struct{ X int }
+
+// EmbedOuter embeds *EmbedInner.
+type EmbedOuter struct {
+	*EmbedInner
+	A int
+}
+
+// allBridged lists every bridged kind of the bridge family.
+var allBridged = []string{"struct", "map", "slice", "array", "nmap", "anyslice", "ptrslice", "funcslice", "nilmap", "nilslice", "structval", "embednil",
+	"ifacemap", "structmap", "nilfunc", "funcstruct", "nilptr", "structslice", "mapslice"}
+
 // GoStruct is the bridged struct kind.
 type GoStruct struct {
 	A int
@@ -141,6 +154,38 @@ func freshBridged(b string) interface{} {
 		return &[3]int{1, 2, 3}
 	case "nmap":
 		return map[NamedKey]int{"a": 1, "b": 2}
+	case "anyslice":
+		return []interface{}{1, "b"}
+	case "ptrslice":
+		return []*int{nil, new(int)}
+	case "funcslice":
+		return []func(){nil}
+	case "nilmap":
+		return map[string]int(nil)
+	case "nilslice":
+		return []int(nil)
+	case "structval":
+		return struct{ A, a int }{1, 2}
+	case "embednil":
+		return &EmbedOuter{A: 1}
+	case "ifacemap":
+		return map[interface{}]int{1: 2, "a": 3}
+	case "structmap":
+		return map[EmbedInner]int{{X: 1}: 2}
+	case "nilfunc":
+		return (func())(nil)
+	case "funcstruct":
+		return &struct {
+			F func()
+			G func(int) int
+			A int
+		}{}
+	case "nilptr":
+		return (*GoStruct)(nil)
+	case "structslice":
+		return []EmbedInner{{X: 1}}
+	case "mapslice":
+		return map[string][]int{"a": {1}}
 	}
 	panic("bridged kind " + b)
 }
